@@ -306,7 +306,15 @@ func (p *Pipeline) Unmarshal(data []byte) error {
 	return nil
 }
 
-func (p *Pipeline) unmarshalNode(data []byte, typ TypeOf, parents []Node) (Node, error) {
+func (p *Pipeline) unmarshalNode(data []byte, typ TypeOf, parents []Node) (n Node, err error) {
+	// The functions that create a node panic when it cannot be a child of its parent,
+	// e.g. a window below a batch node. In a document that is an error, not a crash.
+	defer func() {
+		if r := recover(); r != nil {
+			n = nil
+			err = fmt.Errorf("cannot create node %d of type %q: %v", typ.ID, typ.Type, r)
+		}
+	}()
 	src, ok := sourceFunctions[typ.Type]
 	if ok {
 		if len(parents) != 0 {
